@@ -8,6 +8,10 @@ CLAIMED = {
    note='Trusted: Coq kernel, translator, extraction (ExtrOcamlBasic), xvrt/harness for the tie. Proved for the model, not for the C++ code; SC interleavings only (weak memory: C03). Known finding C12-steal-overlaps-grow is reported as KNOWN-FINDING.',
    technique='Coq proof over generated + hand-written model; model/implementation trace correspondence; schedule search for failing inputs', design='5/C12'),
 }
+CLAIMED['C14'] = dict(
+   text='Machine-checked theorems (Coq 8.16.1): the word count generated from seqlock.hpp covers every byte of T for all sizes; a step-level model of load/store/update (any number of readers and writers, any slot count, any word count, arbitrary update functor) with invariant theorems about atomicity of load. The model is tied to the code on every run by line-by-line comparison of atomic-access traces (model vs real code under xvrt) for sizes 9..40 bytes and 1..8 slots; a schedule search with a byte-exact atomic-register linearizability oracle looks for concrete failing inputs.',
+   note='Trusted: Coq kernel, translator, extraction, xvrt/harness for the tie. Proved for the model; SC interleavings only (fences 6/7: C03). Misaligned T is outside the model (the storage is word aligned after the fix).',
+   technique='Coq proof over generated word arithmetic + step-level model; trace correspondence; schedule search', design='5/C14')
 NOT_YET = {}
 props = [json.loads(l) for l in open(os.path.join(V, 'properties.jsonl'))]
 checks, na = [], []
